@@ -1,5 +1,6 @@
 (* C11 — only delete options remove files, and only the files they name. *)
 From Coq Require Import List NArith Bool Arith.
+From PV Require Gen.Dispatch Spec.PublishedLayouts Proofs.DispatchFacts.
 From PV Require Import Base.Bytes Base.Lit Base.Json Base.TextOrder Model.Cli Proofs.CliFacts Proofs.LookupFacts.
 Import ListNotations.
 Open Scope N_scope.
@@ -53,6 +54,37 @@ Proof.
   rewrite Hd. split; [intros _; repeat split|reflexivity].
 Qed.
 Print Assumptions C11_one_action.
+
+(* ---- the tie to the source text of main() ----
+   Gen/Dispatch.v is extracted on every run (harness/extract_dispatch.py, fail-closed Python-ast walk): every top-level
+   `if args.<option>: ...; sys.exit(0)` block of main() in source order with the repository functions it calls, and the
+   option -> Config attribute mapping.  The extraction succeeds only if every mode is such a block (no else / elif chain, no
+   mode function called anywhere else), i.e. one action per invocation, and the order is the published one: *)
+Theorem C11_source_dispatch :
+  Gen.Dispatch.ok_dispatch = true /\
+  Gen.Dispatch.mode_order = Spec.PublishedLayouts.mode_order /\
+  Gen.Dispatch.config_flags = Spec.PublishedLayouts.config_flags.
+Proof. repeat split; reflexivity. Qed.
+Print Assumptions C11_source_dispatch.
+
+(* the model's dispatch tests the modes in exactly that order: the first option present decides *)
+Theorem C11_dispatch_order : forall a,
+  DispatchFacts.published_tags = map Some [DispatchFacts.MFile; DispatchFacts.MJson; DispatchFacts.MId; DispatchFacts.MBmcId; DispatchFacts.MPlid;
+                                            DispatchFacts.MSrc; DispatchFacts.MSrcExclude; DispatchFacts.MList; DispatchFacts.MCount; DispatchFacts.MAll;
+                                            DispatchFacts.MDelete; DispatchFacts.MDeleteAll] /\
+  dispatch a = DispatchFacts.first_chosen a [DispatchFacts.MFile; DispatchFacts.MJson; DispatchFacts.MId; DispatchFacts.MBmcId; DispatchFacts.MPlid;
+                                             DispatchFacts.MSrc; DispatchFacts.MSrcExclude; DispatchFacts.MList; DispatchFacts.MCount; DispatchFacts.MAll;
+                                             DispatchFacts.MDelete; DispatchFacts.MDeleteAll].
+Proof. intros a. split; [exact DispatchFacts.published_tags_value|exact (DispatchFacts.dispatch_follows_order a)]. Qed.
+Print Assumptions C11_dispatch_order.
+
+(* so a delete option acts only when no display / look-up / export mode is requested with it *)
+Theorem C11_delete_only_alone : forall a i, dispatch a = ADelete i \/ dispatch a = ADeleteAll ->
+  nonempty_opt (a_file a) = None /\ a_json a = false /\ nonempty_opt (a_id a) = None /\ nonempty_opt (a_bmcid a) = None /\
+  nonempty_opt (a_plid a) = None /\ nonempty_opt (a_src a) = None /\ nonempty_opt (a_src_exclude a) = None /\
+  a_list a = false /\ a_count a = false /\ a_all a = false.
+Proof. exact DispatchFacts.delete_only_when_alone. Qed.
+Print Assumptions C11_delete_only_alone.
 
 Example C11_example :
   effects (ADelete (L "0x5000a1b2")) [L "x"; L "2024_5000A1B2"; L "copy_5000A1B2"] (fun _ => true) (fun _ => None) None = [Remove (L "2024_5000A1B2")].
